@@ -756,6 +756,16 @@ class ParamsImpl:
             return "err Value " + t[:40]
         return "ok accept"
 
+    @staticmethod
+    def callable_static(src, keys):
+        ns = {}
+        exec(src, ns)  # noqa: S102 - the generated def statement of this scenario
+        try:
+            ns["__init__"](object(), **{k: 1 for k in keys})
+            return True
+        except TypeError:
+            return False
+
     def callable_with(self, keys):
         try:
             self.f(object(), **{k: 1 for k in keys})
@@ -775,6 +785,91 @@ class ParamsImpl:
             d[k] = {"type": "SliderInt", "value": 1, "min": 0, "max": 3, "step": 1, "label": "lbl"}.get(k, 1)
         return d
 
+    def make_param(self, spec):
+        """the model_params value of an `inputs` token (values are small ints; a Checkbox gets a bool, InputText a str)"""
+        m = L()
+        f = spec.split("/")
+        if f[0] == "slider":
+            return m["Slider"](f[3], int(f[2]), 0, 10, step=1 if f[1] == "i" else 0.5)
+        if f[0] == "spec":
+            d = {"type": f[1], "min": 0, "max": 10, "step": 1, "values": list(range(10))}
+            if f[2] != "-":
+                v = int(f[2])
+                d["value"] = bool(v) if f[1] == "Checkbox" else str(v) if f[1] == "InputText" else float(v) if f[1] == "SliderFloat" else v
+            if f[3] != "-":
+                d["label"] = f[3]
+            return d
+        if f[0] == "fdict":
+            return {"a": 1}
+        return int(f[1])
+
+    @staticmethod
+    def val_tok(v):
+        if v is None:
+            return "None"
+        if isinstance(v, dict):
+            return "dict"
+        if isinstance(v, bool):
+            return str(int(v))
+        return to_tok("", v)
+
+    def inputs(self, items):
+        """render ModelCreator on the parameter dict; record the inputs it creates at solara's boundary"""
+        from unittest import mock
+
+        m = L()
+        sv, solara = m["sv"], m["solara"]
+        params = {n: self.make_param(v) for n, v in items}
+        klass = type("M", (), {"__init__": self.f})
+        inst = object.__new__(klass)
+        rec = []
+
+        def spy(kind, orig):
+            def wrapper(*a, **k):
+                cb = k.get("on_value")
+                rec.append((kind, cb.__defaults__[0] if cb is not None and cb.__defaults__ else "?",
+                            a[0] if a else k.get("label"), k.get("value"), cb))
+                return orig(*a, **k)
+            return wrapper
+
+        kinds = {"SliderInt": "sliderint", "SliderFloat": "sliderfloat", "Select": "select", "Checkbox": "checkbox", "InputText": "inputtext"}
+        self.mp = solara.reactive({})
+        self.widgets = {}
+        with mock.patch.multiple(solara, **{a: spy(k, getattr(solara, a)) for a, k in kinds.items()}):
+            try:
+                solara.render(sv.ModelCreator(solara.reactive(inst), params, model_parameters=self.mp), handle_error=False)
+            except ValueError as e:
+                t = str(e)
+                self.mp = None
+                if t.endswith("is not a supported input type"):
+                    out = "err unsupported " + t.split()[0]
+                else:
+                    out = self.check_tok(lambda: (_ for _ in ()).throw(e))
+                self.trace.append(("inputs", self.src, items, out, None, None, None, any(p[1] == "vp" for p in self.sig)))
+                return out
+        self.widgets = {name: cb for _, name, _, _, cb in rec}
+        got = dict(self.mp.value)
+        self.trace.append(("inputs", self.src, items, "ok", got, [(k, n, lab, v) for k, n, lab, v, _ in rec], params,
+                           any(p[1] == "vp" for p in self.sig)))
+        return ("ok params=" + or_dash(",".join(f"{k}:{self.val_tok(v)}" for k, v in got.items()))
+                + " widgets=" + or_dash(",".join(f"{k}/{n}/{lab}/{self.val_tok(v)}" for k, n, lab, v, _ in rec)))
+
+    def change(self, name, value):
+        if getattr(self, "mp", None) is None or name not in self.widgets:
+            return "err noinput"
+        before = dict(self.mp.value)
+        self.widgets[name](int(value))
+        got = dict(self.mp.value)
+        self.trace.append(("change", self.src, name, int(value), before, got, self.callable_with_values(got)))
+        return "ok params=" + or_dash(",".join(f"{k}:{self.val_tok(v)}" for k, v in got.items()))
+
+    def callable_with_values(self, kw):
+        try:
+            self.f(object(), **kw)
+            return True
+        except TypeError:
+            return False
+
     def line(self, w):
         m = L()
         sv = m["sv"]
@@ -783,6 +878,10 @@ class ParamsImpl:
             self.sig = [tuple(p.split(":")) for p in w[1:]]
             self.f, self.src = build_init(self.sig)
             return "ok"
+        if k == "inputs":
+            return self.inputs([t.split(":") for t in w[1:]])
+        if k == "change":
+            return self.change(w[1], w[2])
         if k == "check":
             keys = w[1:]
             out = self.check_tok(lambda: sv._check_model_params(self.f, {k_: 1 for k_ in keys}))
@@ -867,8 +966,11 @@ def gen_drawlayers(R, names):
             hi = lo + R.choice([0, 1, 2, 3, 4, 6, 8]) if R.random() < 0.95 else lo - R.randint(1, 3)
             vmin, vmax = str(lo), str(hi)
         cbar = R.choice(["-", "y", "n", "n"])
-        if vmin != "-" and vmax != "-" and int(vmax) < int(vmin):
-            cbar = "n"  # what a colour bar makes of an inverted range (nonsingular swaps and widens it) is matplotlib's
+        if (vmin != "-" and vmax != "-" and int(vmax) < int(vmin)) or (vmax == "-" and vmin != "-" and int(vmin) > 0) \
+                or (vmin == "-" and vmax != "-" and int(vmax) < 9):
+            # (possibly, with the layer's own minimum / maximum in 0..9) an inverted range: what a colour bar makes of it
+            # (nonsingular swaps and widens it) is matplotlib's
+            cbar = "n"
         specs.append(f"{n}:{mode}:{alpha}:{vmin}:{vmax}:{cbar}")
     return "drawlayers " + " ".join(specs)
 
@@ -1085,6 +1187,33 @@ def gen_keys(R, params):
     return keys
 
 
+INPUT_TYPES = ["SliderInt", "SliderFloat", "Select", "Checkbox", "InputText"]
+
+
+def gen_inputs(R, keys):
+    """ModelCreator on a full parameter dict (fixed values, Slider objects, option dicts), then changes of inputs"""
+    toks, adjustable = [], []
+    for n in keys:
+        k = R.random()
+        if k < 0.3:
+            toks.append(f"{n}:val/{R.randrange(10)}")
+        elif k < 0.37:
+            toks.append(f"{n}:fdict")
+        elif k < 0.65:
+            toks.append(f"{n}:slider/{R.choice('if')}/{R.randrange(10)}/{R.choice(['N', 'lbl', n])}")
+            adjustable.append(n)
+        else:
+            t = R.choice(INPUT_TYPES) if R.random() < 0.93 else R.choice(["Foo", "slider", "Slider"])
+            v = "-" if R.random() < 0.1 else str(R.randrange(2) if t == "Checkbox" else R.randrange(10))
+            toks.append(f"{n}:spec/{t}/{v}/{R.choice(['-', '-', 'K', 'lbl'])}")
+            adjustable.append(n)
+    out = [" ".join(["inputs", *toks])]
+    for _ in range(R.choice([0, 1, 1, 2, 3])):
+        pool = adjustable if adjustable and R.random() < 0.9 else (keys or ["zz"])
+        out.append(f"change {R.choice(pool)} {R.randrange(10)}")
+    return out
+
+
 def gen_params(R, tier):
     lines = ["scenario params"]
     for _ in range(R.randint(1, 3)):
@@ -1093,7 +1222,9 @@ def gen_params(R, tier):
         for _ in range(R.randint(2, 6)):
             keys = gen_keys(R, params)
             k = R.random()
-            if k < 0.8:
+            if k < 0.12:
+                lines.extend(gen_inputs(R, keys))
+            elif k < 0.8:
                 lines.append(" ".join(["check", *keys]))
             elif k < 0.9:
                 vals = [R.choice(["slider", "val", "dict+type+value+min+max", "dict+label", "dict"]) for _ in keys]
@@ -1284,7 +1415,7 @@ def oracle(sc, obs):
                 if (sp[1] == "cmap") != shape.endswith("map") or arg != sp[2]:
                     bad.append(f"layer-mode: layer {name} requested as {sp[1]}={sp[2]} drawn as {shape} {arg}")
                 want_bar = "-" if sp[6] is False else f"{lo}..{hi}"
-                if btok != want_bar:
+                if btok != want_bar and not (lo > hi and btok != "-"):
                     bad.append(f"layer-colorbar: layer {name} has colour bar {btok}, its values are drawn over the range {want_bar}")
                 # which cell shows what
                 if shape.startswith("img"):
@@ -1332,6 +1463,58 @@ def oracle(sc, obs):
             if accepted != want:
                 bad.append(f"{kind}-vs-call: {src.splitlines()[0]} with keys {keys}: check says {out}, "
                            f"calling it by keyword {'works' if callable_ok else 'fails'}{' (*args: refused by policy)' if has_vp else ''}")
+        elif kind == "inputs":
+            _, src, items, out, got, widgets, params, has_vp = ev
+            names = [n for n, _ in items]
+            adjustable = [(n, v) for n, v in items if v.startswith(("slider", "spec"))]
+            unsupported = [v.split("/")[1] for _, v in adjustable if v.startswith("spec") and
+                           v.split("/")[1] not in ("SliderInt", "SliderFloat", "Select", "Checkbox", "InputText")]
+            callable_ok = ParamsImpl.callable_static(src, names)
+            if out.startswith("err unsupported"):
+                if not unsupported:
+                    bad.append(f"inputs-unsupported: {out} but every input type of {items} is supported")
+                continue
+            if unsupported:
+                bad.append(f"inputs-unsupported: {items} holds the unsupported input type {unsupported[0]}, ModelCreator says {out}")
+                continue
+            if (out == "ok") != (callable_ok and not has_vp):
+                bad.append(f"creator-vs-call: {src.splitlines()[0]} with keys {names}: ModelCreator says {out}, "
+                           f"calling it by keyword {'works' if callable_ok else 'fails'}{' (*args: refused by policy)' if has_vp else ''}")
+                continue
+            if out != "ok":
+                continue
+            # the parameter set for (re-)creating the model: every name of model_params, fixed values as they are, inputs
+            # at their value
+            if sorted(got) != sorted(names):
+                bad.append(f"inputs-lossless: model_parameters has the keys {sorted(got)}, model_params {sorted(names)}")
+            for n, v in items:
+                f = v.split("/")
+                if n not in got:
+                    continue
+                if f[0] in ("val", "fdict"):
+                    if got[n] is not params[n]:
+                        bad.append(f"inputs-fixed-value: fixed parameter {n} reaches the model as {got[n]!r}, not as given")
+                else:
+                    want = "None" if f[2] == "-" else f[2]
+                    if ParamsImpl.val_tok(got[n]) != want:
+                        bad.append(f"inputs-initial-value: input {n} ({v}) starts at {got[n]!r}")
+            # one input per user-adjustable parameter, in order, of the kind its type names, labelled and valued as specified
+            want_w = []
+            for n, v in adjustable:
+                f = v.split("/")
+                if f[0] == "slider":
+                    want_w.append(("sliderfloat" if f[1] == "f" else "sliderint", n, f[3], f[2]))
+                else:
+                    want_w.append((f[1].lower(), n, n if f[3] == "-" else f[3], "None" if f[2] == "-" else f[2]))
+            if [(k, n, lab, ParamsImpl.val_tok(v)) for k, n, lab, v in widgets] != want_w:
+                bad.append(f"inputs-widgets: inputs {widgets} created for {adjustable}")
+        elif kind == "change":
+            _, src, name, value, before, got, callable_ok = ev
+            if {k: v for k, v in got.items() if k != name} != {k: v for k, v in before.items() if k != name} or got.get(name) != value \
+                    or list(got) != list(before):
+                bad.append(f"inputs-change: input {name} reported {value}: parameters went from {before} to {got}")
+            if not callable_ok:
+                bad.append(f"inputs-change: after input {name} reported {value} the constructor {src.splitlines()[0]} cannot be called with {sorted(got)}")
         elif kind == "split":
             _, items, user, fixed, params, udict, fdict = ev
             names = [n for n, _ in items]
